@@ -20,7 +20,9 @@ impl Key for DefaultKey {
   #[inline] fn parts(&self) -> (u32, u32) { (self.idx, self.version) }
 }
 #[derive(Debug)]
-struct Slot<V> { version: u32, value: Option<V> }
+/// `occ` mirrors `value.is_some()`; decisions are taken on the flag (a niche-optimised `Option<V>` is not constant-folded by
+/// CBMC's symbolic execution).
+struct Slot<V> { version: u32, occ: bool, value: Option<V> }
 #[derive(Debug)]
 pub struct SlotMap<K: Key, V> {
   slots: [Slot<V>; CAP], used: usize, // slots[..used] have been handed out at least once
@@ -29,7 +31,7 @@ pub struct SlotMap<K: Key, V> {
 }
 impl<K: Key, V> Default for SlotMap<K, V> {
   fn default() -> Self {
-    Self { slots: [const { Slot { version: 0, value: None } }; CAP], used: 0, free: [0; CAP], nfree: 0, num: 0, _k: std::marker::PhantomData }
+    Self { slots: [const { Slot { version: 0, occ: false, value: None } }; CAP], used: 0, free: [0; CAP], nfree: 0, num: 0, _k: std::marker::PhantomData }
   }
 }
 impl<K: Key, V> SlotMap<K, V> {
@@ -56,6 +58,7 @@ impl<K: Key, V> SlotMap<K, V> {
       let slot = self.sel_mut(idx as usize).unwrap();
       slot.version = slot.version.wrapping_add(1);
       slot.value = Some(value);
+      slot.occ = true;
       K::from_parts(idx, slot.version)
     } else {
       assert!(self.used < CAP, "KMODEL-CAPACITY: SlotMap");
@@ -63,6 +66,7 @@ impl<K: Key, V> SlotMap<K, V> {
       let slot = self.sel_mut(idx).unwrap();
       slot.version = 1;
       slot.value = Some(value);
+      slot.occ = true;
       K::from_parts(idx as u32, 1)
     }
   }
@@ -71,23 +75,24 @@ impl<K: Key, V> SlotMap<K, V> {
     let (idx, version) = key.parts();
     let i = idx as usize;
     if i >= self.used { return None; }
-    match self.sel(i) { Some(s) if s.version == version && s.value.is_some() => Some(s), _ => None }
+    match self.sel(i) { Some(s) if s.version == version && s.occ => Some(s), _ => None }
   }
   #[inline]
   fn live_mut(&mut self, key: K) -> Option<&mut Slot<V>> {
     let (idx, version) = key.parts();
     let i = idx as usize;
     if i >= self.used { return None; }
-    match self.sel_mut(i) { Some(s) if s.version == version && s.value.is_some() => Some(s), _ => None }
+    match self.sel_mut(i) { Some(s) if s.version == version && s.occ => Some(s), _ => None }
   }
   pub fn contains_key(&self, key: K) -> bool { self.live(key).is_some() }
-  pub fn get(&self, key: K) -> Option<&V> { match self.live(key) { Some(s) => s.value.as_ref(), None => None } }
-  pub fn get_mut(&mut self, key: K) -> Option<&mut V> { match self.live_mut(key) { Some(s) => s.value.as_mut(), None => None } }
+  pub fn get(&self, key: K) -> Option<&V> { match self.live(key) { Some(s) => match &s.value { Some(v) => Some(v), None => unreachable!("slotmap model: occ flag without value") }, None => None } }
+  pub fn get_mut(&mut self, key: K) -> Option<&mut V> { match self.live_mut(key) { Some(s) => match &mut s.value { Some(v) => Some(v), None => unreachable!("slotmap model: occ flag without value") }, None => None } }
   pub fn remove(&mut self, key: K) -> Option<V> {
     let (idx, _) = key.parts();
     let v = {
       let slot = self.live_mut(key)?;
       let v = slot.value.take();
+      slot.occ = false;
       slot.version = slot.version.wrapping_add(1);
       v
     };
@@ -105,7 +110,7 @@ impl<'a, K: Key, V> Iterator for Iter<'a, K, V> {
     while self.i < CAP {
       let i = self.i; self.i += 1;
       let s = &self.m.slots[i];
-      if let Some(v) = s.value.as_ref() { return Some((K::from_parts(i as u32, s.version), v)); }
+      if s.occ { match &s.value { Some(v) => return Some((K::from_parts(i as u32, s.version), v)), None => unreachable!("slotmap model: occ flag without value") } }
     }
     None
   }
@@ -114,7 +119,7 @@ pub struct ValuesMut<'a, V> { it: std::slice::IterMut<'a, Slot<V>> }
 impl<'a, V> Iterator for ValuesMut<'a, V> {
   type Item = &'a mut V;
   fn next(&mut self) -> Option<Self::Item> {
-    loop { match self.it.next() { None => return None, Some(s) => if let Some(v) = s.value.as_mut() { return Some(v); } } }
+    loop { match self.it.next() { None => return None, Some(s) => if s.occ { match &mut s.value { Some(v) => return Some(v), None => unreachable!("slotmap model: occ flag without value") } } } }
   }
 }
 impl<K: Key, V> Index<K> for SlotMap<K, V> {
